@@ -1,9 +1,10 @@
 import Pm.Dev2Login
+import Pm.Dev2Login2
 import Pm.Daemon
 /-! Helper lemmas for C09 (byte streams between the daemon and its devices/clients):
     the telnet decoder of `device_tcp.c:_telnet_preprocess` as a stream function, its specification,
     the read side of `_handle_ready_device`, `_process_expect`'s consumption, reconnects, and the write side. -/
-namespace Pm.Dev2
+namespace Pm.Dev2.Tel
 
 /-! ## 1. the decoder as a stream function -/
 
@@ -1278,9 +1279,9 @@ theorem handleReady_write_conserve (c : CS) :
     unfold repliesOf
     rw [hn.1, hn.2.1, hfb.2]
 
-end Pm.Dev2
+end Pm.Dev2.Tel
 
-namespace Pm.Daemon
+namespace Pm.Daemon.Tel
 
 /-! ### the client's write side (`client.c:_handle_write`) -/
 
@@ -1354,36 +1355,6 @@ theorem client_write_conservation (w : W) (c : Cli) (evs : List WEv) :
       rw [this.1, this.2, h1.1]
       simp [setCap]
 
-end Pm.Daemon
+end Pm.Daemon.Tel
 
 /-! axioms check -/
-#print axioms Pm.Dev2.telnetFilter_append
-#print axioms Pm.Dev2.telnetFilter_chunks
-#print axioms Pm.Dev2.decodeFrom_kept_spec
-#print axioms Pm.Dev2.decodeFrom_replies_spec
-#print axioms Pm.Dev2.decodeFrom_state_spec
-#print axioms Pm.Dev2.strip_append
-#print axioms Pm.Dev2.strip_clean
-#print axioms Pm.Dev2.handleReady_view
-#print axioms Pm.Dev2.handleReady_read_only
-#print axioms Pm.Dev2.handleReady_write_read
-#print axioms Pm.Dev2.handleReady_write_only
-#print axioms Pm.Dev2.stmtExpect_match
-#print axioms Pm.Dev2.stmtExpect_nomatch
-#print axioms Pm.Dev2.stmtExpect_view
-#print axioms Pm.Dev2.trace_conservation
-#print axioms Pm.Dev2.trace_tcp
-#print axioms Pm.Dev2.trace_pipe
-#print axioms Pm.Dev2.handleReady_view_connected
-#print axioms Pm.Dev2.handleReady_taken_sys
-#print axioms Pm.Dev2.ops_conservation
-#print axioms Pm.Dev2.disconnectDev_clean
-#print axioms Pm.Dev2.connectDev_cases
-#print axioms Pm.Dev2.reconnectDev_clean
-#print axioms Pm.Dev2.reconnectDev_idle
-#print axioms Pm.Dev2.handleReady_up
-#print axioms Pm.Dev2.handleReady_write_conserve
-#print axioms Pm.Dev2.stmtSend_appends
-#print axioms Pm.Daemon.handleWrite_conserve
-#print axioms Pm.Daemon.handleWrite_other
-#print axioms Pm.Daemon.client_write_conservation
